@@ -1344,20 +1344,27 @@ impl<'a, SE: extensions::ShellExtensions> WordExpander<'a, SE> {
                 let mut expanded_parameter = self.expand_parameter(&parameter, indirect).await?;
 
                 // If this is ${@:...} then make sure $0 is in the array being sliced.
-                if matches!(
+                let is_positional = matches!(
                     parameter,
                     brush_parser::word::Parameter::Special(
                         brush_parser::word::SpecialParameter::AllPositionalParameters {
                             concatenate: _
                         },
                     )
-                ) {
+                );
+                if is_positional {
                     let shell_name = self.shell.current_shell_name().unwrap_or_else(|| "".into());
 
                     expanded_parameter.fields.insert(
                         0,
                         WordField::from(ExpansionPiece::Splittable(shell_name.to_string())),
                     );
+                }
+
+                // An unset parameter (or an array without elements) has nothing to slice;
+                // the offset and length are not evaluated.
+                if expanded_parameter.undefined || expanded_parameter.fields.is_empty() {
+                    return Ok(expanded_parameter);
                 }
 
                 #[expect(clippy::cast_possible_wrap)]
@@ -1368,27 +1375,37 @@ impl<'a, SE: extensions::ShellExtensions> WordExpander<'a, SE> {
                 // referencing the last element.
                 if expanded_offset < 0 {
                     expanded_offset += expanded_parameter_len;
-
-                    // If the offset is still negative, then we need to yield an empty slice.
-                    // We force the offset to the end of the array.
-                    if expanded_offset < 0 {
-                        expanded_offset = expanded_parameter_len;
-                    }
                 }
 
-                // Make sure the offset is within the bounds of the item.
-                let expanded_offset = min(expanded_offset, expanded_parameter_len);
+                // An offset outside the item yields an empty slice; the length is not
+                // evaluated. (An array has nothing at its end offset either.)
+                let is_array = expanded_parameter.from_array && !is_positional;
+                if expanded_offset < 0
+                    || expanded_offset > expanded_parameter_len
+                    || (is_array && expanded_offset == expanded_parameter_len)
+                {
+                    #[expect(clippy::cast_sign_loss)]
+                    let end = expanded_parameter_len as usize;
+                    return Ok(expanded_parameter.polymorphic_subslice(end, end));
+                }
 
                 let end_offset = if let Some(length) = length {
-                    let mut expanded_length = length.eval(self.shell, self.params, false).await?;
+                    let expanded_length = length.eval(self.shell, self.params, false).await?;
                     if expanded_length < 0 {
-                        expanded_length += expanded_parameter_len;
+                        // A negative length is an offset from the end of a string; it is not
+                        // meaningful for arrays and may not end before the start.
+                        let end_offset = expanded_parameter_len + expanded_length;
+                        if expanded_parameter.from_array || end_offset < expanded_offset {
+                            return Err(error::ErrorKind::CheckedExpansionError(std::format!(
+                                "{expanded_length}: substring expression < 0"
+                            ))
+                            .into());
+                        }
+                        end_offset
+                    } else {
+                        expanded_offset
+                            + min(expanded_length, expanded_parameter_len - expanded_offset)
                     }
-
-                    let expanded_length =
-                        min(expanded_length, expanded_parameter_len - expanded_offset);
-
-                    expanded_offset + expanded_length
                 } else {
                     expanded_parameter_len
                 };
